@@ -9,7 +9,9 @@ judge       : Spec/Text.lean's reading of the lines the REAL code produced (ever
 
 import glob
 import itertools
+import json
 import os
+import re
 import shutil
 import signal
 import tempfile
@@ -17,7 +19,7 @@ import warnings
 
 from vlib import leanio
 from vlib import c10spec as spec
-from vlib.core import MachineryError, REPO
+from vlib.core import MachineryError, REPO, VERIF
 from vlib.par import pmap, shrink_list
 
 META = {
@@ -54,7 +56,15 @@ THEOREMS_CARD = [
     "C10_roundtrip",
     "C10_roundtrip_refuted",
 ]
-THEOREMS = THEOREMS_WRAP + THEOREMS_CARD
+# lean/MontePyVerif/Props/C10Cards.lean: per-cell data cards of the data block (the final continuation mark of EVERY card
+# is dropped; lines that start an input and do not end in the mark are inputs of their own by Spec/Text.lean)
+THEOREMS_CELLDATA = [
+    "C10_mark_dropped",
+    "C10_no_mark_left",
+    "C10_cards_own_inputs",
+    "C10_cards_merge_refuted",
+]
+THEOREMS = THEOREMS_WRAP + THEOREMS_CARD + THEOREMS_CELLDATA
 
 V80, V128, V5 = (6, 1, 0), (6, 2, 0), (5, 1, 60)
 VERSIONS = [V80, V128, V5]
@@ -187,6 +197,8 @@ def apply_edits(obj, edits):
             obj.volume = e[1]
         elif k == "importance":
             obj.importance.neutron = e[1]
+        elif k == "imp":
+            setattr(obj.importance, {"n": "neutron", "p": "photon", "e": "electron"}[e[1]], e[2])
         elif k == "constants":
             obj.surface_constants = [c * e[1] + e[2] for c in obj.surface_constants]
         elif k == "location":
@@ -237,7 +249,8 @@ def impl_object(case):
 
 
 def impl_file(case):
-    """read_input on a generated file, set the target version, write_to_file; return the written lines."""
+    """read_input on a generated file, apply the edits (objects, and the problem's print_in_data_block switches), set the
+    target version, write_to_file; return the written lines, the source lines and what the problem says it holds."""
     mp = _mp()
     d = tempfile.mkdtemp(prefix="c10_")
     try:
@@ -245,12 +258,20 @@ def impl_file(case):
         if src is None:
             src = os.path.join(d, "in.imcnp")
             with open(src, "w") as fh:
-                fh.write(case["text"])
+                fh.write(celldata_text(case["cd"]) if "cd" in case else case["text"])  # a stored "text" next to "cd" is for the reader
+        with open(src, errors="replace") as fh:
+            source = fh.read().split("\n")
         with warnings.catch_warnings():
             warnings.simplefilter("ignore")
             try:
                 p = mp.montepy.read_input(src)
                 for kind, idx, edits in case.get("edits", []):
+                    if kind == "problem":
+                        for e in edits:
+                            if e[0] != "pidb":
+                                raise AssertionError(e[0])
+                            p.print_in_data_block[e[1]] = bool(e[2])
+                        continue
                     coll = {"cell": p.cells, "surface": p.surfaces, "material": p.materials}[kind]
                     objs = list(coll)
                     if objs:
@@ -261,6 +282,8 @@ def impl_file(case):
                             else:
                                 apply_edits(o, [e])
                 p.mcnp_version = tuple(case["version"])
+                holds = {"cells": [c.number for c in p.cells], "surfaces": [s.number for s in p.surfaces],
+                         "pidb": {k: bool(p.print_in_data_block[k]) for k in ("imp", "vol", "u", "lat", "fill")}}
             except Exception as e:  # noqa: BLE001
                 return {"skip": "setup:" + type(e).__name__}
             dst = os.path.join(d, "out.imcnp")
@@ -272,9 +295,35 @@ def impl_file(case):
         with open(dst) as fh:
             written = fh.read().split("\n")
         return {"written": written, "calls": rec.calls, "has_message": p.message is not None,
-                "message_lines": len(p.message.lines) if p.message is not None else 0}
+                "message_lines": len(p.message.lines) if p.message is not None else 0, "source": source, "holds": holds,
+                "imp_data": importance_cards(p, tuple(case["version"])) if case.get("imp_cards") else None}
     finally:
         shutil.rmtree(d, ignore_errors=True)
+
+
+def importance_cards(problem, version):
+    """The texts Importance._format_tree (data-block branch) joins — `tree.format()` of every group of particles that is
+    printed together, in print order, taken from the live trees AFTER the real write (which ran _update_values) — next to
+    what the real CellModifierInput.format_for_mcnp_input made of them (its wrap_string_for_mcnp call: text and lines).
+    None when the importances are not written to the data block."""
+    if not problem.print_in_data_block["imp"]:
+        return None
+    imp = problem.cells._importance
+    if imp.in_cell_block or not imp._is_worth_printing:
+        return None
+    with warnings.catch_warnings():
+        warnings.simplefilter("ignore")
+        with Recorder() as rec:
+            lines = list(imp.format_for_mcnp_input(version))
+        printed, cards = set(), []
+        for particle, tree in imp._real_tree.items():
+            if particle in printed:
+                continue
+            printed |= tree["classifier"].particles.particles
+            cards.append(tree.format())
+    if len(rec.calls) != 1:
+        return None
+    return {"cards": cards, "text": rec.calls[0]["s"], "lines": lines}
 
 
 def impl_front(case):
@@ -471,6 +520,86 @@ def judge_file(res, version):
         else:
             cls = "content-changed"
         return {"mechanism": "wrap", "site": "write_to_file", "class": cls, "kind": "file"}
+    return judge_inputs(res, version)
+
+
+# the per-cell data cards (Cell._INPUTS_TO_PROPERTY): in the data block their words after the mnemonic are entries
+# (numbers, jumps, shortcuts), never another mnemonic
+CELL_DATA_RE = re.compile(r"^\*?(imp:[a-z,#|/]+|vol|u|lat|fill)$")
+
+
+def _blocks(lines):
+    """the three blocks of a file (lines behind the title), split at blank lines; what follows the third is not read"""
+    blocks = [[]]
+    for l in lines:
+        if spec.is_blank(l):
+            if len(blocks) == 3:
+                break
+            blocks.append([])
+        else:
+            blocks[-1].append(l)
+    return blocks + [[] for _ in range(3 - len(blocks))]
+
+
+def _source_blocks(source):
+    lines = [l.expandtabs(8) for l in source]
+    if lines and lines[0].lower().startswith("message:"):
+        k = 0
+        while k < len(lines) and not spec.is_blank(lines[k]):
+            k += 1
+        lines = lines[k + 1 :]
+    return _blocks(lines[1:])
+
+
+def _imp_particles(word):
+    w = word.lower().lstrip("*")
+    if not w.startswith("imp:"):
+        return []
+    return [x for x in re.split(r"[,|/#]", w[4:].split("=")[0]) if x]
+
+
+def judge_inputs(res, version):
+    """C10's last clause at the level of the file: splitting the written file back into inputs yields the inputs the
+    problem holds, none merged into the one before it (no input starts as a continuation of its predecessor):
+    one input per cell and per surface (first word = the object's number), the data inputs of the source in their order,
+    and every per-cell data card of the data block on its own (its words behind the mnemonic are entries, never another
+    mnemonic; every particle whose importance the source gives has exactly one IMP card when they go to the data block).
+    Judged by Spec on the written lines against the source's lines and the problem's public collections."""
+    if "holds" not in res:
+        return None
+    limit = limit_of(version)
+    body_start = (res["message_lines"] + 1 if res["has_message"] else 0) + 1
+    W = [[i["words"] for i in spec.logical_inputs(limit, b) if i["words"]]
+         for b in _blocks([l.expandtabs(8) for l in res["written"][body_start:]])]
+    S = [[i["words"] for i in spec.logical_inputs(spec.HUGE, b) if i["words"]] for b in _source_blocks(res["source"])]
+    base = {"mechanism": "wrap", "site": "write_to_file"}
+    if any(ws[0].lower() == "read" for b in S for ws in b):
+        res["inputs_skip"] = "read-input"  # the source pulls in other files: its own lines do not say what the problem holds
+        return None
+    if len(S[0]) != len(res["holds"]["cells"]) or len(S[1]) != len(res["holds"]["surfaces"]):
+        # Spec and MontePy's reader split the SOURCE differently (e.g. `& $ comment`, which Spec/Text.lean reads as a
+        # continuation mark and MCNP's manual does not settle): reading is C11/C12's subject, nothing to hold the writer to
+        res["inputs_skip"] = "source-read-differently"
+        return None
+    if [ws[0] for ws in W[0]] != [str(n) for n in res["holds"]["cells"]]:
+        return dict(base, **{"class": "inputs-merged" if len(W[0]) < len(res["holds"]["cells"]) else "inputs-changed", "kind": "cell-block"})
+    if [ws[0].lstrip("*+") for ws in W[1]] != [str(n) for n in res["holds"]["surfaces"]]:
+        return dict(base, **{"class": "inputs-merged" if len(W[1]) < len(res["holds"]["surfaces"]) else "inputs-changed", "kind": "surface-block"})
+    for ws in W[2]:
+        rest = [w.lower() for w in ws[1:]]
+        if any(w.startswith("imp:") or w.startswith("*imp:") for w in rest) or (
+            CELL_DATA_RE.match(ws[0].lower()) and any(CELL_DATA_RE.match(w) for w in rest)
+        ):
+            return dict(base, **{"class": "inputs-merged", "kind": "cell-data"})
+    wd = [ws[0].lower() for ws in W[2] if not CELL_DATA_RE.match(ws[0].lower())]
+    sd = [ws[0].lower() for ws in S[2] if not CELL_DATA_RE.match(ws[0].lower())]
+    if wd != sd and wd != sd + ["mode"]:
+        return dict(base, **{"class": "inputs-merged" if len(wd) < len(sd) else "inputs-changed", "kind": "data-block"})
+    if res["holds"]["pidb"]["imp"]:
+        given = {x for b in S for ws in b for w in ws for x in _imp_particles(w)}
+        cards = [x for ws in W[2] for x in _imp_particles(ws[0])]
+        if len(cards) != len(set(cards)) or not given <= set(cards):
+            return dict(base, **{"class": "inputs-merged" if not given <= set(cards) else "inputs-changed", "kind": "cell-data"})
     return None
 
 
@@ -736,6 +865,180 @@ def gen_file_case(rng, i):
     return {"text": text, "edits": ed2, "version": list(v)}
 
 
+# ---- per-cell data (IMP for several particles, VOL, U) in every layout MCNP allows, in either block, moved between the
+# blocks by problem.print_in_data_block — as the starting state (the source gives the data in the data block) and as an
+# edit.  The values keep the padding they were read with ("&", line breaks, $ comments), and that padding travels with them
+# to the other block.
+CD_PARTICLES = ["n", "p", "e"]
+CD_MODS = ["imp", "vol", "u"]
+
+
+def celldata_entries(cd):
+    """the names of the entries a cell (or the data block) carries, in print order"""
+    names = []
+    if "imp" in cd["mods"]:
+        names += ["imp:" + ",".join(cd["particles"])] if cd.get("combined") else ["imp:" + x for x in cd["particles"]]
+    return names + [m for m in ("vol", "u") if m in cd["mods"]]
+
+
+def _cd_value(cell, name):
+    if name.startswith("imp:"):
+        return cell["imp"][name[4:].split(",")[0]]
+    return cell[name]
+
+
+def _cd_join(text, sep, lead, item):
+    """append one entry / value behind `text` with the layout `sep`"""
+    if "$" in text.split("\n")[-1] and sep != "cont":
+        sep, lead = "cont", 0  # a $ comment runs to the end of its line
+    if sep == "same":
+        return text + " " * (1 + lead % 3) + item
+    if sep == "cont":
+        return text + "\n" + " " * (5 + lead) + item
+    return text + " &\n" + " " * lead + item  # "amp": the mark makes the next line a continuation wherever it starts
+
+
+def celldata_text(cd):
+    """the source file of a celldata case (a pure function of the structured description: shrinking edits `cd`)"""
+    n = len(cd["cells"])
+    names = celldata_entries(cd)
+    lines = ["per-cell data in both blocks, with & continuations"]
+    for k, cell in enumerate(cd["cells"]):
+        geom = "-1" if n == 1 else ("-1" if k == 0 else f"{k}" if k == n - 1 else f"{k} -{k + 1}")
+        text = f"{k + 1} 0 {geom}"
+        for name in names:
+            if cd["where"][name.split(":")[0]] != "cell":
+                continue
+            lay = cell["lay"].get(name, ["same", 0, ""])
+            text = _cd_join(text, lay[0], lay[1], name + cell.get("eq", "=") + _cd_value(cell, name))
+            if lay[2]:
+                text += " $ " + lay[2]
+        if k == n - 1 and cd.get("tail_amp") and "$" not in text.split("\n")[-1]:
+            text += " &"
+        lines += text.split("\n")
+    lines.append("")
+    lines += [f"{k + 1} so {k + 1}.5" for k in range(max(1, n - 1))]
+    lines.append("")
+    data = ["mode " + " ".join(cd["particles"])]
+    for name in names:
+        if cd["where"][name.split(":")[0]] != "data":
+            continue
+        text = name
+        for k, cell in enumerate(cd["cells"]):
+            lay = cell["lay"].get(name, ["same", 0, ""])
+            text = _cd_join(text, lay[0] if k else "same", lay[1], _cd_value(cell, name))
+            if lay[2]:
+                text += " $ " + lay[2]
+        data.append(text)
+    # where the NPS input stands among the data inputs is part of the description
+    data.insert(min(len(data), 1 + cd.get("nps_at", 0)), "nps 1000")
+    if cd.get("long_comment"):
+        data.insert(1, "c " + cd["long_comment"])
+    return "\n".join(lines + data) + "\n\n"
+
+
+def gen_celldata_case(rng, i):
+    v = VERSIONS[i % 3]
+    particles = rng.choice([["n"], ["n", "p"], ["n", "p"], ["n", "p"], ["p", "n"], ["n", "p", "e"], ["n", "e"]])
+    mods = ["imp"] + [m for m in ("vol", "u") if rng.random() < 0.4]
+    ncell = rng.choice([1, 2, 2, 3, 3, 4, 6]) if rng.random() < 0.85 else rng.randint(24, 50)
+    amp = rng.choice([0.0, 0.25, 0.5, 0.5, 0.9])  # how much of the layout uses the continuation mark
+    cd = {
+        "particles": particles,
+        "mods": mods,
+        "where": {m: ("cell" if rng.random() < 0.7 else "data") for m in CD_MODS},
+        "combined": len(particles) > 1 and rng.random() < 0.15,
+        "tail_amp": rng.random() < amp * 0.5,
+        "nps_at": rng.randint(0, 6),
+        "long_comment": gen_comment(rng, rng.randint(18, 30)) if rng.random() < 0.2 else "",
+        "cells": [],
+    }
+    for k in range(ncell):
+        last = k == ncell - 1 and ncell > 1
+        cell = {
+            "imp": {x: ("0" if last else rng.choice(["1", "1", "2", "4", "0.5", "1.0", "8"])) for x in CD_PARTICLES},
+            "vol": rng.choice(["1", "2.5", "10.0", "1e3"]),
+            "u": str(rng.choice([1, 2, 3])),
+            "eq": rng.choice(["=", "=", "=", " = ", " "]),
+            "lay": {},
+        }
+        for name in celldata_entries(cd):
+            r = rng.random()
+            sep = "amp" if r < amp else "cont" if r < amp + (1 - amp) * 0.3 else "same"
+            lead = rng.choice([0, 0, 0, 1, 3, 4, 5, 7]) if sep == "amp" else rng.choice([0, 0, 0, 1, 2])
+            comment = gen_comment(rng, rng.randint(1, 6)) if sep != "amp" and rng.random() < 0.08 else ""
+            cell["lay"][name] = [sep, lead, comment]
+        cd["cells"].append(cell)
+    # the switches: both directions, before and after the other edits; edits that make values grow
+    edits = []
+    for m in mods:
+        if rng.random() < 0.75:
+            edits.append(["problem", 0, [["pidb", m, cd["where"][m] == "cell" or rng.random() < 0.2]]])
+    for _ in range(rng.randint(0, 2)):
+        r = rng.random()
+        if r < 0.5:
+            edits.append(["cell", rng.randint(0, 60), [["imp", rng.choice(particles), rng.choice([0.0, 3.0, 0.123456789, 16.0])]]])
+        elif r < 0.8:
+            edits.append(["cell", rng.randint(0, 60), [["number", rng.choice([99999999, 1234567, 77])]]])
+        elif "vol" in mods:
+            edits.append(["cell", rng.randint(0, 60), [["volume", rng.choice([5.0, 1.23456789e7])]]])
+    rng.shuffle(edits)
+    seen, ed2 = set(), []
+    for e in edits:
+        key = (e[0], e[2][0][0], e[2][0][1])
+        if key not in seen:
+            seen.add(key)
+            ed2.append(e)
+    return {"cd": cd, "edits": ed2, "version": list(v), "imp_cards": True}
+
+
+def shrink_celldata(case, fails):
+    """smallest description on which `fails(case)` still holds: fewer edits, fewer cells, fewer kinds of data and
+    particles, plainer layouts"""
+    def with_cd(cd):
+        return dict(case, cd=cd)
+
+    def ok(c):
+        try:
+            return fails(c)
+        except Exception:  # noqa: BLE001
+            return False
+
+    case = dict(case, edits=shrink_list(case["edits"], lambda es: ok(dict(case, edits=es))))
+    cd = json.loads(json.dumps(case["cd"]))
+    cells = shrink_list(cd["cells"], lambda cs: len(cs) >= 1 and ok(dict(case, cd=dict(cd, cells=cs))))
+    cd["cells"] = cells
+    for m in list(cd["mods"]):
+        c2 = dict(cd, mods=[x for x in cd["mods"] if x != m])
+        e2 = [e for e in case["edits"] if not (e[0] == "problem" and e[2][0][1] == m)]
+        if c2["mods"] and ok(dict(case, cd=c2, edits=e2)):
+            cd, case = c2, dict(case, edits=e2)
+    for x in list(cd["particles"]):
+        c2 = dict(cd, particles=[y for y in cd["particles"] if y != x])
+        if c2["particles"] and ok(dict(case, cd=c2)):
+            cd = c2
+    for key, plain in (("tail_amp", False), ("long_comment", ""), ("combined", False), ("nps_at", 0)):
+        if cd.get(key) != plain and ok(dict(case, cd=dict(cd, **{key: plain}))):
+            cd[key] = plain
+    for k in range(len(cd["cells"])):
+        for name in list(cd["cells"][k]["lay"]):
+            for plain in (["same", 0, ""], [cd["cells"][k]["lay"][name][0], 0, ""]):
+                if cd["cells"][k]["lay"][name] == plain:
+                    continue
+                c2 = json.loads(json.dumps(cd))
+                c2["cells"][k]["lay"][name] = plain
+                if ok(dict(case, cd=c2)):
+                    cd = c2
+                    break
+        for key, plain in (("eq", "="),):
+            if cd["cells"][k][key] != plain:
+                c2 = json.loads(json.dumps(cd))
+                c2["cells"][k][key] = plain
+                if ok(dict(case, cd=c2)):
+                    cd = c2
+    return dict(case, cd=cd)
+
+
 CORPUS_STRINGS = [
     # (string, version) — minimised inputs of the defects repaired by the fix: commits (known_findings.json "fixed")
     ("1 0 -1 -2 -3 -4 -5 -6 -7 -8 -9 -10 -11 -12 -13 -14 -15 -16 imp:n=1 $ this dollar comment is too long", V80),
@@ -856,7 +1159,12 @@ def run(chk):
         "(b) for base lines every token boundary moved to columns limit-6..limit+6, both regimes (80/128), "
         "(c) all strings over {a,blank,$,c} up to a small length at tiny widths, (d) real cells/surfaces/materials/MT/TR "
         "parsed, edited through the API so that numbers grow, and formatted by the real format_for_mcnp_input, "
-        "(e) whole problems read, renumbered and written by write_to_file for (6,1,0),(6,2,0),(5,1,60). "
+        "(e) whole problems read, renumbered and written by write_to_file for (6,1,0),(6,2,0),(5,1,60), "
+        "(f) problems whose cells carry per-cell data (IMP for 1-3 particles, separate or combined, VOL, U) laid out with & "
+        "continuation marks, 5-blank continuation lines and $ comments, given in the cell block or in the data block (1-6 cells, "
+        "or 24-50 so that the cards wrap), moved to the other block by print_in_data_block before/after importance, volume and "
+        "number edits; the written file must split into the inputs the problem holds (one per cell/surface, the source's data "
+        "inputs, one card per kind of per-cell data and particle group). "
         "A case is non-trivial if the real code produced more than one line for some source line (it wrapped)."
     )
     chk.assumptions = [
@@ -881,9 +1189,10 @@ def run(chk):
     ]
     leanio.prove(chk, "MontePyVerif.Props.C10", THEOREMS_WRAP, "MontePyVerif.C10")
     leanio.prove(chk, "MontePyVerif.Props.C10Roundtrip", THEOREMS_CARD, "MontePyVerif.C10")
+    leanio.prove(chk, "MontePyVerif.Props.C10Cards", THEOREMS_CELLDATA, "MontePyVerif.C10")
     drv = leanio.Driver(chk, "drv_c10")
     if chk.thorough:
-        leanio.leanchecker(chk, ["MontePyVerif.Props.C10", "MontePyVerif.Props.C10Roundtrip"])
+        leanio.leanchecker(chk, ["MontePyVerif.Props.C10", "MontePyVerif.Props.C10Roundtrip", "MontePyVerif.Props.C10Cards"])
 
     # ---------------------------------------------------------------- U-wrapline: _wrap_line vs wrapLine
     rng = chk.rng("lines")
@@ -1078,6 +1387,18 @@ def run(chk):
         fl_cases.append({"text": COSINE_FILE, "edits": [], "version": list(v)})
     for i in range(chk.pick(150, 3000)):
         fl_cases.append(gen_file_case(rng, i))
+    # per-cell data for several particles with & continuations, moved between the blocks (print_in_data_block)
+    ncorpus_files = 0
+    for path in sorted(glob.glob(os.path.join(VERIF, "corpus", "C10", "*.json"))):
+        with open(path) as fh:
+            stored = json.load(fh).get("case", {})
+        if stored.get("unit") == "file":
+            fl_cases.append(stored["case"])
+            ncorpus_files += 1
+    rng = chk.rng("celldata")
+    ncd = chk.pick(400, 8000)
+    for i in range(ncd):
+        fl_cases.append(gen_celldata_case(rng, i))
     impl = pmap(impl_file, fl_cases, workers=WORKERS, chunksize=8)
     nfiles = 0
     file_calls = []
@@ -1087,9 +1408,19 @@ def run(chk):
             continue
         nfiles += 1
         wrapped = any(len(c["lines"]) > len([l for l in c["s"].splitlines() if l.strip()]) for c in ri["calls"])
-        chk.note_case({"file": case.get("path") or case["text"], "version": case["version"], "edits": case["edits"]}, wrapped)
+        if "cd" in case:
+            # non-trivial: a continuation mark of the source stands in data that is written in the other block
+            moved = [m for m in case["cd"]["mods"] if ri["holds"]["pidb"][m] != (case["cd"]["where"][m] == "data")]
+            marks = any(c["lay"].get(n, ["same"])[0] == "amp" for c in case["cd"]["cells"] for n in celldata_entries(case["cd"])
+                        if n.split(":")[0] in moved)
+            chk.note_case(case, wrapped or marks)
+            chk.count("celldata:" + ("moved-with-mark" if marks else "moved" if moved else "in-place"))
+            chk.count("celldata:particles=%d" % len(case["cd"]["particles"]))
+        else:
+            chk.note_case({"file": case.get("path") or case["text"], "version": case["version"], "edits": case["edits"]}, wrapped)
         chk.count("file:" + ("wrapped" if wrapped else "fits"))
         sig = judge_file(ri, case["version"])
+        chk.count("file:inputs-clause:" + ("skipped:" + ri["inputs_skip"] if "inputs_skip" in ri else "judged"))
         chk.count("file:wrapcalls-recorded", len([c for c in ri["calls"] if c["lines"]]))
         chk.count("file:wrapcalls-matched-in-file", ri.get("matched_calls", 0))
         if sig is not None:
@@ -1097,14 +1428,57 @@ def run(chk):
             if "skip" in r2 or judge_file(r2, case["version"]) != sig:
                 chk.count("flaky:judge")
             else:
-                chk.violation(sig, f"{sig['class']} in the file written for {tuple(case['version'])}", {"unit": "file", "case": case, "written": r2["written"]})
+                key = "file:" + str(sorted(sig.items()))
+                _SHRUNK[key] = _SHRUNK.get(key, 0) + 1
+                if "cd" in case and _SHRUNK[key] <= 3:
+                    def fails(c2, sig=sig):
+                        r3 = impl_file(c2)
+                        return "skip" not in r3 and judge_file(r3, c2["version"]) == sig
+
+                    case = shrink_celldata(case, fails)
+                    r2 = impl_file(case)
+                    case = dict(case, text=celldata_text(case["cd"]))
+                if "cd" in case and _SHRUNK[key] > 3:
+                    # reported (confirmed and minimised) three times on this run: only count further occurrences
+                    chk.count("repeat:" + sig["class"] + "/" + sig["kind"])
+                else:
+                    chk.violation(sig, f"{sig['class']} ({sig['kind']}) in the file written for {tuple(case['version'])}",
+                                  {"unit": "file", "case": case, "written": r2["written"]})
         for c in ri["calls"]:
             if judgeable(c["s"]):
                 s2 = judge_wrap(c["s"], c["version"], c["first"], c["lines"])
                 if s2 is not None:
                     report_wrap(chk, {"s": c["s"], "version": c["version"], "first": c["first"]}, s2)
         file_calls += ri["calls"][:40]
-    chk.units["U-file"] = {"files": len(fl_cases), "written": nfiles}
+    chk.units["U-file"] = {"files": len(fl_cases), "written": nfiles, "celldata_cases": ncd, "corpus_files": ncorpus_files}
+
+    # ---------------------------------------------------------------- U-celldata: IMP cards of the data block
+    # Model: importanceDataText (every card through dropFinalContinuationMark, joined) and modifierDataFormat, against the
+    # text the real Importance handed to wrap_string_for_mcnp and the lines it returned, from the cards of the live trees
+    cq, cown = [], []
+    for k, (case, ri) in enumerate(zip(fl_cases, impl)):
+        if "skip" not in ri and ri.get("imp_data"):
+            cq.append({"op": "imp_data", "cards": ri["imp_data"]["cards"], "version": case["version"]})
+            cown.append(k)
+    chk.units["U-celldata"] = {"importance_cards_in_data_block": len(cq),
+                               "cards_ending_in_mark": sum(1 for q in cq for c in q["cards"] if c.rstrip().endswith("&"))}
+    model = drv.batch(cq)
+    for j, q in enumerate(cq):
+        case, ri = fl_cases[cown[j]], impl[cown[j]]
+        if model is None:
+            break
+        chk.count("celldata-cards:" + ("mark" if any(c.rstrip().endswith("&") for c in q["cards"]) else "plain"))
+
+        def re_impl(_q, case=case):
+            r2 = impl_file(case)
+            d = (r2.get("imp_data") or {}) if "skip" not in r2 else {}
+            return {"text": d.get("text"), "lines": d.get("lines")}
+
+        compare(chk, drv, "U-celldata importanceDataText/modifierDataFormat (Model/Wrap.lean vs Importance._format_tree + "
+                "CellModifierInput.format_for_mcnp_input, data block)", dict(q, file_case=case),
+                {"text": ri["imp_data"]["text"], "lines": ri["imp_data"]["lines"]},
+                {"text": model[j].get("text"), "lines": model[j].get("lines")}, re_impl,
+                lambda x: (lambda m: {"text": m.get("text"), "lines": m.get("lines")})(drv.batch([{k: v for k, v in x.items() if k != "file_case"}])[0]))
     if nfiles == 0:
         raise MachineryError("no file could be read and written: the file generator or MontePy's reader is broken")
     if chk.dist.get("file:wrapcalls-recorded", 0) > 0 and chk.dist.get("file:wrapcalls-matched-in-file", 0) * 4 < chk.dist["file:wrapcalls-recorded"]:
